@@ -38,7 +38,11 @@ theorem hasLongLine_eq (data : List Char) :
   rw [List.all_eq_not_any_not, Bool.not_not]
   congr 1
   funext l
-  simp [short, maxToken]
+  by_cases h : l.length < 65536
+  · have : ¬ (65536 ≤ l.length) := by omega
+    simp [short, maxToken, h, this]
+  · have : 65536 ≤ l.length := by omega
+    simp [short, maxToken, h, this]
 
 theorem trimLast_all (ls : List (List Char)) : (trimLast ls).all short = ls.all short := by
   unfold trimLast
@@ -74,22 +78,43 @@ theorem scanLines_lines (data : List Char) (h : hasLongLine data = false) :
   rw [hasLongLine_eq, ← trimLast_all] at h
   rw [scanLines_eq, entryLines_eq, takeWhile_of_all short _ (by simpa using h)]
 
+/-- a too-long line turns success into an error -/
+def fileRes {β} (c : Res β) (tooLong : Bool) : Res β :=
+  match c with
+  | .ok v => if tooLong then Res.err else .ok v
+  | r => r
+
+theorem parsePortsFile_eq (data : List Char) :
+    parsePortsFile data =
+      fileRes (collect (((scanLines data).1.filterMap cleanLine).map parsePortRange)) (scanLines data).2 := by
+  unfold parsePortsFile fileRes
+  rcases scanLines data with ⟨ls, tl⟩
+  dsimp only
+  cases collect (List.map parsePortRange (List.filterMap cleanLine ls)) <;> rfl
+
+theorem parseExcludeFile_eq (data : List Char) :
+    parseExcludeFile data =
+      fileRes (collect (((scanLines data).1.filterMap cleanLine).map (fun l => match parseIPNet l with
+        | some n => Res.ok (n.base, n.ones)
+        | none => .err))) (scanLines data).2 := by
+  unfold parseExcludeFile fileRes
+  rcases scanLines data with ⟨ls, tl⟩
+  dsimp only
+  generalize collect (List.map (fun l => match parseIPNet l with
+        | some n => Res.ok (n.base, n.ones)
+        | none => .err) (List.filterMap cleanLine ls)) = c
+  cases c <;> rfl
+
 theorem fileRes_ok {β} (c : Res β) (tooLong : Bool) (v : β) :
-    (match c with
-      | .ok v => if tooLong then Res.err else .ok v
-      | r => r) = .ok v ↔ tooLong = false ∧ c = .ok v := by
-  cases c <;> cases tooLong <;> simp
+    fileRes c tooLong = .ok v ↔ tooLong = false ∧ c = .ok v := by
+  cases c <;> cases tooLong <;> simp [fileRes]
 
 theorem fileRes_ne_panic {β} (c : Res β) (tooLong : Bool) (h : c ≠ .panic) :
-    (match c with
-      | .ok v => if tooLong then Res.err else .ok v
-      | r => r) ≠ .panic := by
-  cases c <;> cases tooLong <;> simp at h ⊢
+    fileRes c tooLong ≠ .panic := by
+  cases c <;> cases tooLong <;> simp [fileRes] at h ⊢
 
 theorem file_ok {β} (f : List Char → Res β) (data : List Char) (v : List β) :
-    (match collect (((scanLines data).1.filterMap cleanLine).map f) with
-      | .ok v => if (scanLines data).2 then Res.err else .ok v
-      | r => r) = .ok v ↔
+    fileRes (collect (((scanLines data).1.filterMap cleanLine).map f)) (scanLines data).2 = .ok v ↔
     hasLongLine data = false ∧ (entryLines data).mapM (fun l => okOnly (f l)) = some v := by
   rw [fileRes_ok, scanLines_tooLong]
   constructor
@@ -106,8 +131,13 @@ theorem ports_file (data : List Char) (v : List PortRange) :
       (entryLines data).mapM (fun l => match parsePortRange l with
         | .ok r => some r
         | _ => none) = some v := by
-  have := file_ok parsePortRange data v
-  exact this
+  rw [parsePortsFile_eq, file_ok parsePortRange data v]
+  have e : (fun l => okOnly (parsePortRange l)) = (fun l => match parsePortRange l with
+        | .ok r => some r
+        | _ => none) := by
+    funext l
+    cases parsePortRange l <;> rfl
+  rw [e]
 
 theorem exclude_file (data : List Char) (v : List (Nat × Nat)) :
     parseExcludeFile data = .ok v ↔
@@ -122,17 +152,20 @@ theorem exclude_file (data : List Char) (v : List (Nat × Nat)) :
     funext l
     cases parseIPNet l <;> rfl
   rw [e] at this
+  rw [parseExcludeFile_eq]
   exact this
 
 theorem files_no_panic (data : List Char) :
     parsePortsFile data ≠ .panic ∧ parseExcludeFile data ≠ .panic := by
   constructor
-  · apply fileRes_ne_panic
+  · rw [parsePortsFile_eq]
+    apply fileRes_ne_panic
     apply collect_no_panic
     intro r hr
     obtain ⟨x, _, rfl⟩ := List.mem_map.1 hr
     exact parsePortRange_ne_panic x
-  · apply fileRes_ne_panic
+  · rw [parseExcludeFile_eq]
+    apply fileRes_ne_panic
     apply collect_no_panic
     intro r hr
     obtain ⟨x, _, rfl⟩ := List.mem_map.1 hr
